@@ -2,6 +2,7 @@ import PeptVerif.Lemmas.Combinatoric
 import PeptVerif.Lemmas.CombinatoricSpec
 import PeptVerif.Model.CombinatoricText
 import PeptVerif.Spec.ProForma
+import PeptVerif.Lemmas.CanonFields
 /-! Helper lemmas for C19 at text level: membership in the enumerations, the text of interval-free annotations, canonicity of the results. -/
 set_option linter.unusedSimpArgs false
 namespace Pept
@@ -164,23 +165,6 @@ theorem normList_canonAdducts (ch : Option Int) (x : Option (List Mod)) (h : can
       simp only [canonAdducts, Bool.and_eq_true, Bool.not_eq_eq_eq_not, Bool.not_true, List.isEmpty_eq_false_iff] at h
       exact ⟨h.1.2, h.2⟩
 
-/-- the fields of a canonical annotation, one by one -/
-theorem canon_fields (a : Annotation) (h : canon a = true) :
-    a.seq ≠ [] ∧ a.seq.all isAA = true ∧ canonOptMods '{' '}' a.labile = true ∧ canonGlobal canonStatic a.static = true ∧
-    canonGlobal canonIsotope a.isotope = true ∧ canonOptMods '[' ']' a.unknown = true ∧
-    canonOptMods '[' ']' a.nterm = true ∧ canonInternal (Int.ofNat a.seq.length) a.internal = true ∧
-    canonIntervals (Int.ofNat a.seq.length) a.intervals = true ∧ canonOptMods '[' ']' a.cterm = true ∧
-    (match a.charge with | none => true | some ch => decide (ch ≠ 0)) = true ∧ canonAdducts a.charge a.adducts = true := by
-  simp only [canon, Bool.and_eq_true] at h
-  obtain ⟨⟨⟨⟨⟨⟨⟨⟨⟨⟨⟨h1, h2⟩, h3⟩, h4⟩, h5⟩, h6⟩, h7⟩, h8⟩, h9⟩, h10⟩, h11⟩, h12⟩ := h
-  refine ⟨?_, h2, h3, h4, h5, h6, h7, h8, h9, h10, h11, h12⟩
-  intro e; rw [e] at h1; simp at h1
-
-theorem normCharge_canon (c : Option Int) (h : (match c with | none => true | some ch => decide (ch ≠ 0)) = true) :
-    normCharge c = c := by
-  apply normCharge_id
-  intro e; subst e; simp at h
-
 theorem mem_canonInternalList (n lo : Int) (d : List (Int × List Mod)) (h : canonInternalList n lo d = true) :
     ∀ p ∈ d, p.2.all (canonMod '[' ']') = true := by
   induction d generalizing lo with
@@ -293,14 +277,14 @@ theorem residues_wrap_canon (a : Annotation) (sel : List (Char × List Mod))
 /-- a non-empty selection of residues of a canonical annotation, wrapped in its globals, is canonical -/
 theorem canon_wrap (a : Annotation) (hc : canon a = true) (sel : List (Char × List Mod)) (hne : sel ≠ [])
     (hsel : ∀ r ∈ sel, r ∈ residues a) : canon (wrap a sel) = true := by
-  obtain ⟨_, _, h3, h4, h5, h6, h7, _, _, h10, h11, h12⟩ := canon_fields a hc
+  obtain ⟨_, _, h3, h4, h5, h6, h7, _, _, h10, h12⟩ := canon_fields a hc
   have hres := fun r hr => mem_residues_canon a hc r (hsel r hr)
   have hint := canonInternal_internalOf sel (fun r hr => (hres r hr).2)
   simp only [canon, wrap, Bool.and_eq_true]
   rw [normList_canonOptMods _ _ _ h3, normList_canonGlobal _ canonStatic_mult _ h4,
     normList_canonGlobal _ canonIsotope_mult _ h5, normList_canonOptMods _ _ _ h6, normList_canonOptMods _ _ _ h7,
-    normList_canonOptMods _ _ _ h10, normCharge_canon _ h11, normList_canonAdducts _ _ h12]
-  refine ⟨⟨⟨⟨⟨⟨⟨⟨⟨⟨⟨?_, ?_⟩, h3⟩, h4⟩, h5⟩, h6⟩, h7⟩, ?_⟩, rfl⟩, h10⟩, h11⟩, h12⟩
+    normList_canonOptMods _ _ _ h10, normList_canonAdducts _ _ h12]
+  refine ⟨⟨⟨⟨⟨⟨⟨⟨⟨⟨?_, ?_⟩, h3⟩, h4⟩, h5⟩, h6⟩, h7⟩, ?_⟩, rfl⟩, h10⟩, h12⟩
   · cases sel with
     | nil => exact absurd rfl hne
     | cons x xs => simp
@@ -314,7 +298,7 @@ theorem canon_wrap (a : Annotation) (hc : canon a = true) (sel : List (Char × L
 theorem serialize_wrap (plus : Plus) (a : Annotation) (hc : canon a = true) (sel : List (Char × List Mod))
     (hsel : ∀ r ∈ sel, r ∈ residues a) :
     serialize plus (wrap a sel) = serializeStart plus a ++ resText plus sel ++ serializeEnd plus a := by
-  obtain ⟨_, _, h3, h4, h5, h6, h7, _, _, h10, h11, h12⟩ := canon_fields a hc
+  obtain ⟨_, _, h3, h4, h5, h6, h7, _, _, h10, h12⟩ := canon_fields a hc
   have hres := fun r hr => (mem_residues_canon a hc r (hsel r hr)).2
   unfold serialize
   rw [serializeMiddle_noiv plus (wrap a sel) rfl, residues_wrap_canon a sel hres]
@@ -324,7 +308,7 @@ theorem serialize_wrap (plus : Plus) (a : Annotation) (hc : canon a = true) (sel
       normList_canonGlobal _ canonIsotope_mult _ h5, normList_canonOptMods _ _ _ h6, normList_canonOptMods _ _ _ h7]
   have he : serializeEnd plus (wrap a sel) = serializeEnd plus a := by
     simp only [serializeEnd, wrap]
-    rw [normList_canonOptMods _ _ _ h10, normCharge_canon _ h11, normList_canonAdducts _ _ h12]
+    rw [normList_canonOptMods _ _ _ h10, normList_canonAdducts _ _ h12]
   rw [hs, he]
 
 end Pept
